@@ -102,6 +102,11 @@ CHECKS = {
         technique="runtime monitoring with sanitizers: the real alloc.rs compiled into a reference-model monitor (content patterns, quiescent-point conservation at barriers) run natively and under Miri (many seeds), ThreadSanitizer, AddressSanitizer+LeakSanitizer and valgrind memcheck",
         text="Bounded-exhaustive single-thread histories (length <= 4 quick, <= 5 plus reduced-alphabet length 6 thorough) over the operation/size/limit grid against a sequential model checked after every operation, seeded random histories of length 200, and 2..16 threads on one allocator with usage = sum of live sizes and peak >= certainly-reached usage checked at barriers; any sanitizer report in the workload is a violation.",
         note="Holds on the histories and interleavings produced (fingerprints counted in evidence), not on all schedules; Miri workloads are small (about 1e4 operations per seed); transient over-charge refusals are allowed by the statement."),
+    "C20": dict(
+        category="fault_enumeration", design_ref="DESIGN.md §2 C20",
+        technique="runtime fault enumeration on the real release `rink` binary: fault-injecting loopback HTTP server, cache-directory bytes before/after, this and the next start's output, strace log checked against a trace specification, SIGKILL injected (strace inject) at every traced file syscall of the refresh",
+        text="Prior cache {absent, fresh, stale, unreadable fresh/stale} x server {200 complete under both framings, body cut after k bytes under both framings, 301/302/404/500/503, stalls, reset, refused, complete non-JSON body} x entry point {startup with a currency query, --fetch-currency}: the cache must hold the previous or the complete new bytes, rink must still start, use the stale cache and answer 1 + 1, new rates must be visible to the next start; the syscall trace must show no write to the cache file itself and fsync before every rename onto it; the client is killed at every file syscall of a successful refresh.",
+        note="Durability of fsync under power loss is checked on the trace only (not observable in this VM); bodies without framing are not generated; quick cuts at 8 offsets, thorough at every 4 KiB and around every 16 KiB boundary."),
 }
 
 PENDING = {}
@@ -133,7 +138,7 @@ def main():
                        "reason": PENDING.get(pid, "monitor not built yet in this round (planned in DESIGN.md §2); not claimed until its check exists")})
     manifest = {
         "version": 1,
-        "setup_cmd": "cd /verif/harness && CARGO_NET_OFFLINE=true cargo build --offline",
+        "setup_cmd": "/verif/tools/setup.sh",
         "hooks": {
             "guard": "--cfg rink_verif",
             "enable": "none needed: every observation point is public API; the guard name is reserved",
